@@ -2,7 +2,9 @@
 
 Case: {"env": one of srcgen.ENV_NAMES, "src": template source, "via": stream label,
        "mode": "all" | "fs"   (all = lex + parse + compile(raw)+Python compile + from_string; fs = from_string only),
-       "bounds": false        (only hand-written replays / known findings: skip the measured-size exclusion)}
+       "bounds": false        (only hand-written replays / known findings: skip the measured-size exclusion),
+       "name": str, "loader": "dict" | "func"   (optional: load through DictLoader / FunctionLoader under this
+                              template name instead of from_string; with "func" the name is the file name too)}
 
 Oracle (validity predicate, nothing is computed by the code under test on the expected side):
 every entry point returns, or raises TemplateSyntaxError (incl. TemplateAssertionError) whose
@@ -23,6 +25,9 @@ from vt.gen import srcgen
 PID = "C01"
 LEVEL = "exploration"
 RULE = (
+    "template loaded by from_string, or (about half of the grammar / mutation / seed cases and a second pass over the "
+    "<=2-fragment strings) through a DictLoader / FunctionLoader under a name from a pool holding both quotes, backslash, "
+    "{x}, {, %s, line breaks, a non-BMP character and a plain name; "
     "four streams x seven environments (default, custom delimiters <% %> ${ } <!-- -->, line statements #/##, "
     "trim+lstrip, async, sandboxed, i18n+do+loopcontrols+debug extensions): (1) exhaustive concatenations of <=3 "
     "(quick) / <=4 (thorough, default environment) fragments of a ~60 fragment alphabet (delimiters of the "
@@ -60,9 +65,17 @@ def _envs():
 
     # Python's compile() warns about generated code such as `1[0]`; not part of the property
     warnings.filterwarnings("ignore", category=SyntaxWarning)
+    slot = _state["$slot"] = {}
+
+    def load(n):  # FunctionLoader: the file name is the template name as well
+        return (slot[n], n, None) if n in slot else None
+
     for name, kw in srcgen.ENVS.items():
         cls = SandboxedEnvironment if name == "sandbox" else jinja2.Environment
         _state[name] = cls(**kw)
+        # the same configuration reached through a loader (no template cache: every get_template compiles)
+        _state[name + "$dict"] = cls(loader=jinja2.DictLoader(slot), cache_size=0, **kw)
+        _state[name + "$func"] = cls(loader=jinja2.FunctionLoader(load), cache_size=0, **kw)
     _state["$TSE"] = jinja2.TemplateSyntaxError
     _state["$TAE"] = jinja2.TemplateAssertionError
     _state["$Template"] = jinja2.Template
@@ -122,6 +135,27 @@ def check_case(case):
             raise core.Excluded()
     stage = _Stage(envname, src)
     labels = [envname, "via_" + case.get("via", "?")]
+    tname = case.get("name")
+    if tname is None:
+        load = lambda: env.from_string(src)  # noqa: E731
+        parse = lambda: env.parse(src)  # noqa: E731
+        compile_raw = lambda: env.compile(src, raw=True)  # noqa: E731
+        how = "from_string"
+        labels.append("unnamed")
+    else:
+        # the template is loaded by name: the name (and, with the function loader, the file name) is
+        # embedded in the generated code and in error positions
+        lenv = st[envname + ("$func" if case.get("loader") == "func" else "$dict")]
+        slot = st["$slot"]
+        slot.clear()
+        slot[tname] = src
+        load = lambda: lenv.get_template(tname)  # noqa: E731
+        parse = lambda: env.parse(src, tname, tname)  # noqa: E731
+        compile_raw = lambda: env.compile(src, tname, tname, raw=True)  # noqa: E731
+        how = "get_template(%s)" % _short(tname)
+        labels.append("named")
+        stage.envname = "%s (name=%s)" % (envname, _short(tname))
+        envname = stage.envname
     old_limit = sys.getrecursionlimit()
     sys.setrecursionlimit(_frame_depth() + RECURSION_HEADROOM)
     try:
@@ -131,10 +165,10 @@ def check_case(case):
                 first = "lex_error"
             else:
                 first = None
-            r, _ = stage.run("parse", lambda: env.parse(src))
+            r, _ = stage.run("parse", parse)
             if r != "ok" and first is None:
                 first = "parse_error"
-            r, raw = stage.run("compile(raw=True)", lambda: env.compile(src, raw=True))
+            r, raw = stage.run("compile(raw=True)", compile_raw)
             if r == "ok":
                 if not isinstance(raw, str):
                     raise core.Violation("compile(raw=True) returned %r" % type(raw))
@@ -150,25 +184,25 @@ def check_case(case):
                 first = "compile_error"
             if r == "tae":
                 labels.append("assertion_error")
-            r, tmpl = stage.run("from_string", lambda: env.from_string(src))
+            r, tmpl = stage.run(how, load)
             if r == "ok":
                 if not isinstance(tmpl, st["$Template"]) or not callable(tmpl.root_render_func):
                     raise core.Violation("from_string returned %r" % (tmpl,))
                 if first is not None:
                     raise core.Violation(
-                        "[%s env] from_string succeeded although an earlier entry point failed (%s); source=%s"
+                        "[%s env] loading succeeded although an earlier entry point failed (%s); source=%s"
                         % (envname, first, _short(src))
                     )
                 labels.append("compiled")
             else:
                 if first is None:
                     raise core.Violation(
-                        "[%s env] from_string raised %r although lex/parse/compile(raw) succeeded; source=%s"
+                        "[%s env] loading raised %r although lex/parse/compile(raw) succeeded; source=%s"
                         % (envname, _, _short(src))
                     )
                 labels.append(first)
         else:
-            r, tmpl = stage.run("from_string", lambda: env.from_string(src))
+            r, tmpl = stage.run(how, load)
             if r == "ok":
                 if not isinstance(tmpl, st["$Template"]):
                     raise core.Violation("from_string returned %r" % (tmpl,))
@@ -177,7 +211,9 @@ def check_case(case):
                 labels.append("assertion_error" if r == "tae" else "syntax_error")
     finally:
         sys.setrecursionlimit(old_limit)
-    return core.Outcome(srcgen.has_delimiter(src, envname), labels)
+        if tname is not None:
+            st["$slot"].clear()
+    return core.Outcome(srcgen.has_delimiter(src, case["env"]), labels)
 
 
 # ---------------------------------------------------------------------------------------
@@ -239,13 +275,27 @@ def guarded(case):
 # shards
 
 
-def _enum_slice(envs, lengths, mode, index, nshards):
+def _enum_slice(envs, lengths, mode, index, nshards, named=False):
     # slice before joining: itertools does the skipping in C
+    names = srcgen.TEMPLATE_NAME_POOL
+    k = index
     for n in lengths:
         for env in envs:
             fr = srcgen.fragments(env)
             for combo in itertools.islice(itertools.product(fr, repeat=n), index, None, nshards):
-                yield {"env": env, "src": "".join(combo), "via": "enum", "mode": mode}
+                case = {"env": env, "src": "".join(combo), "via": "enum", "mode": mode}
+                if named:  # the names rotate over the enumeration
+                    k += 1
+                    case["name"] = names[k % len(names)]
+                    case["loader"] = ("dict", "func")[(k // len(names)) % 2]
+                yield case
+
+
+def _named(case, choice):
+    """choice: None or (name, loader) drawn by Hypothesis."""
+    if choice is not None:
+        case["name"], case["loader"] = choice
+    return case
 
 
 def shards(tier):
@@ -271,14 +321,20 @@ def _streams(ctx, rec, st):
     E = srcgen.ENV_NAMES
     # stream 1: exhaustive short strings
     yield lambda: core.enum_shard(_enum_slice(E, (0, 1, 2), "all", ctx.index, ctx.nshards), guarded, ctx, rec=rec)
-    # seeds verbatim, every environment (cheap, sliced)
-    seeds = ({"env": e, "src": s, "via": "seed", "mode": "all"} for s in srcgen.SEEDS for e in E)
+    yield lambda: core.enum_shard(_enum_slice(E, (1, 2), "all", ctx.index, ctx.nshards, named=True), guarded, ctx, rec=rec)
+    # seeds verbatim, every environment (cheap, sliced); every other one is loaded under a name from the pool
+    names = srcgen.TEMPLATE_NAME_POOL
+    seeds = (
+        _named({"env": e, "src": s, "via": "seed", "mode": "all"}, (names[(i + j) % len(names)], ("dict", "func")[i % 2]) if (i + j) % 2 else None)
+        for i, s in enumerate(srcgen.SEEDS) for j, e in enumerate(E)
+    )
     yield lambda: core.enum_shard(core.sliced(seeds, ctx.index, ctx.nshards), guarded, ctx, rec=rec)
     # stream 2: grammar
-    gram = env_st.flatmap(lambda e: srcgen.templates(e).map(lambda s: {"env": e, "src": s, "via": "gram", "mode": "all"}))
+    name_st = st.one_of(st.none(), st.tuples(st.sampled_from(names), st.sampled_from(["dict", "func"])))
+    gram = env_st.flatmap(lambda e: st.builds(lambda s, nm: _named({"env": e, "src": s, "via": "gram", "mode": "all"}, nm), srcgen.templates(e), name_st))
     yield lambda: core.hyp_shard(gram, guarded, ctx, ctx.pick(N_GRAM_QUICK, N_GRAM_THOROUGH), rec=rec, tag="gram")
     # stream 3: mutation
-    mut = env_st.flatmap(lambda e: srcgen.mutated(e).map(lambda s: {"env": e, "src": s, "via": "mut", "mode": "all"}))
+    mut = env_st.flatmap(lambda e: st.builds(lambda s, nm: _named({"env": e, "src": s, "via": "mut", "mode": "all"}, nm), srcgen.mutated(e), name_st))
     yield lambda: core.hyp_shard(mut, guarded, ctx, ctx.pick(N_MUT_QUICK, N_MUT_THOROUGH), rec=rec, tag="mut")
     yield lambda: core.enum_shard(_enum_slice(E, (3,), "fs", ctx.index, ctx.nshards), guarded, ctx, rec=rec)
     if not ctx.quick:
@@ -328,7 +384,7 @@ def _atheris_stream(ctx, rec):
 def floors(total, tier):
     lab = total.labels
     need = {"compiled": 500000, "syntax_error": 50000, "lex_error": 1500, "parse_error": 3000, "compile_error": 200,
-            "assertion_error": 200, "via_gram": 8000, "via_mut": 8000, "via_enum": 500000, "via_seed": 2000}
+            "assertion_error": 200, "named": 30000, "unnamed": 500000, "via_gram": 8000, "via_mut": 8000, "via_enum": 500000, "via_seed": 2000}
     for e in srcgen.ENV_NAMES:
         need[e] = 70000
     low = ["%s=%d<%d" % (k, lab.get(k, 0), v) for k, v in need.items() if lab.get(k, 0) < v]
